@@ -39,7 +39,7 @@ func fill(buf []byte, p uint64) {
 }
 
 func checkBits(c bcase) *mc.Failure {
-	return mc.Guard(func() *mc.Failure {
+	return mc.GuardT("mbits", c, func() *mc.Failure {
 		var big, data []byte
 		if c.Align < 0 {
 			data = make([]byte, c.Len)
@@ -93,7 +93,7 @@ type tcase struct {
 }
 
 func checkTrunc(c tcase) *mc.Failure {
-	return mc.Guard(func() *mc.Failure {
+	return mc.GuardT("trunc", c, func() *mc.Failure {
 		s := string(c.S)
 		got := mstr.Trunc(s, c.N)
 		if !strings.HasPrefix(s, got) {
@@ -316,7 +316,7 @@ func main() {
 					for j := 0; j < n; j++ {
 						row[j] = int8(mstr.CompareNatural(strs[i], strs[j]))
 						if j >= i {
-							if f := mc.Guard(func() *mc.Failure { return checkNatPair(strs[i], strs[j]) }); f != nil {
+							if f := mc.GuardT("natural", ncase{A: strs[i], B: strs[j]}, func() *mc.Failure { return checkNatPair(strs[i], strs[j]) }); f != nil {
 								r.Violation(mc.Case{Harness: "natural", Trace: mc.J(ncase{A: strs[i], B: strs[j]}), Msg: f.Msg})
 							}
 						}
